@@ -181,9 +181,17 @@ def e2e(ctx):
             names = ['%s/%s.tar.gpg' % gb for gb in e.backups]
             errs = r.errors()
             fired = [q for q in o['requests'] if q.get('fault')]
-            failed_first = names[0] not in finals
             if mode == 'remote' and not fired:
                 continue        # the conversation was shorter than nth
+            # which of the two uploads the fault hit: the one in progress when it fired, i.e. the number of
+            # renames to a final name the emulator had performed before it
+            v = 0
+            if mode == 'remote':
+                done = [q for q in o['requests'] if q['seq'] < fired[0]['seq'] and q['endpoint'] in ('move', 'patch')
+                        and not q.get('fault') and 200 <= q['status'] < 300]
+                v = min(len(done), 1)
+                stats['fault_in_second_upload'] = stats.get('fault_in_second_upload', 0) + v
+            failed_first = names[v] not in finals
             lost = mode == 'remote' and rule['fault'] in ('badjson', 'noheader') and any(q['endpoint'] in ('move', 'patch') for q in fired)
             if mode == 'gpg-absent':
                 if finals:
@@ -195,14 +203,14 @@ def e2e(ctx):
             # the faulted upload: no final name (unless the reply of a performed rename was lost), an error line
             if not failed_first and not lost and (mode != 'remote' or uc.model_resp(prov, fired[0]['endpoint'], rule['fault']) != 'ok'):
                 # it may be a fault with no effect on this endpoint class (e.g. badjson on a raw-read reply)
-                ctx.violation('property', 'the faulted upload of %s still produced a final-named object [%s %s %s]' % (names[0], prov, mode, rule),
+                ctx.violation('property', 'the faulted upload of %s still produced a final-named object [%s %s %s]' % (names[v], prov, mode, rule),
                               {'case': case, 'errors': errs[:4]})
             if failed_first and not errs:
-                ctx.violation('property', 'the upload of %s failed but nothing is reported at error level [%s %s]' % (names[0], prov, mode), {'case': case})
+                ctx.violation('property', 'the upload of %s failed but nothing is reported at error level [%s %s]' % (names[v], prov, mode), {'case': case})
             if any('backup group on' in x and 'Failed to create' in x for x in errs):
                 continue        # the group itself could not be created: nothing of it can be uploaded
-            if names[1] not in finals:
-                ctx.violation('property', 'after the failure of the first upload the remaining backup %s was not uploaded [%s %s %s]: %s' % (names[1], prov, mode, rule, errs[:3]),
+            if names[1 - v] not in finals:
+                ctx.violation('property', 'the upload of %s failed and the other backup %s is not in the cloud [%s %s %s]: %s' % (names[v], names[1 - v], prov, mode, rule, errs[:3]),
                               {'case': case})
             else:
                 stats['first_failed_second_uploaded' if failed_first else 'none_failed'] += 1
